@@ -77,8 +77,8 @@ func caseLineAux(m *fga.Model, ts *typesystem.TypeSystem, depth int, tuples, ctx
 		fga.EncodeTuples("tuples", tuples), fga.EncodeTuples("ctx", ctxT), rq.Encode())
 }
 
-func this() *fga.Rewrite            { return &fga.Rewrite{Kind: "this"} }
-func cu(r string) *fga.Rewrite      { return &fga.Rewrite{Kind: "cu", Rel: r} }
+func this() *fga.Rewrite       { return &fga.Rewrite{Kind: "this"} }
+func cu(r string) *fga.Rewrite { return &fga.Rewrite{Kind: "cu", Rel: r} }
 func diff(b, s *fga.Rewrite) *fga.Rewrite {
 	return &fga.Rewrite{Kind: "diff", Kids: []*fga.Rewrite{b, s}}
 }
@@ -102,7 +102,7 @@ func crafted() []string {
 		return &fga.RelDef{Name: n, Rewrite: rw, Restrs: rs}
 	}
 	t := func(o, r, us string) fga.Tuple { return fga.Tuple{Obj: o, Rel: r, User: us} }
-	// LU-A: both operands of an exclusion report "no relationship" for x
+	// LU-A (fixed: the base status is kept): both operands of an exclusion report "no relationship" for x
 	a := &fga.Model{Types: []*fga.TypeDef{{Name: "user"}, {Name: "doc", Rels: []*fga.RelDef{
 		rel("a", this(), u), rel("b", this(), u), rel("c", this(), u), rel("d", this(), u),
 		rel("v", diff(diff(cu("a"), cu("b")), diff(cu("c"), cu("d")))),
@@ -121,7 +121,8 @@ func crafted() []string {
 		{Name: "doc", Rels: []*fga.RelDef{rel("viewer", this(), fga.Restr{Typ: "group", Rel: "member"})}}}}
 	mk(c, []fga.Tuple{t("group:1", "a", "user:x"), t("group:2", "a", "user:x"), t("group:2", "b", "user:x"),
 		t("doc:1", "viewer", "group:1#member"), t("doc:1", "viewer", "group:2#member")}, "doc:1", "viewer", "user")
-	// LU-D: userset filter, objects and wildcards of the filter type directly assigned
+	// LU-D (fixed: objects and wildcards are sent only for a filter without relation): userset filter, objects
+	// and wildcards of the filter type directly assigned
 	d := &fga.Model{Types: []*fga.TypeDef{{Name: "user"},
 		{Name: "group", Rels: []*fga.RelDef{rel("member", this(), u)}},
 		{Name: "doc", Rels: []*fga.RelDef{rel("viewer", this(), fga.Restr{Typ: "group"}, fga.Restr{Typ: "group", Wild: true}, fga.Restr{Typ: "group", Rel: "member"})}}}}
